@@ -54,9 +54,10 @@ Lemma mul_eqv : forall thr P Q, 1 <= thr -> eqv (mul D thr P Q) (pmul P Q).
 Proof. intros. constructor. apply mul_spec; assumption. Qed.
 Lemma coef_mul_s : forall P u i, coef (mul_s D P u) i = dmul D u (coef P i).
 Proof.
-  induction P as [|a P IH]; intros u i.
-  - cbn [mul_s map]. rewrite coef_nil. ring.
-  - destruct i; cbn [mul_s map]. rewrite !coef_cons_0. ring. rewrite !coef_cons_S. apply IH.
+  intros P u i. unfold mul_s. rewrite (coef_setdegree D OK). revert i.
+  induction P as [|a P IH]; intros i.
+  - cbn [map]. rewrite coef_nil. ring.
+  - destruct i; cbn [map]. rewrite !coef_cons_0. ring. rewrite !coef_cons_S. apply IH.
 Qed.
 Lemma mul_s_eqv : forall P u, eqv (mul_s D P u) (pmul [u] P).
 Proof.
@@ -81,6 +82,11 @@ Proof.
   - apply is0_true in E; [|assumption]. subst c. intros [|i]. reflexivity. rewrite coef_cons_S, !coef_nil. reflexivity.
   - reflexivity.
 Qed.
+Lemma sub_pub_eqv : forall P Q, eqv (sub_pub D P Q) (psub P Q).
+Proof.
+  intros P Q. constructor. intros i. unfold sub_pub.
+  destruct P as [|a P]; destruct Q as [|b Q]; rewrite ?(coef_setdegree D OK); reflexivity.
+Qed.
 Lemma subin_eqv : forall R P, eqv (subin D R P) (psub R P).
 Proof. intros. constructor. intros i. rewrite (coef_subin D OK), (coef_sub D OK). reflexivity. Qed.
 
@@ -91,7 +97,7 @@ Lemma divmod_identity : forall kthr sthr A B, 1 <= kthr ->
 Proof.
   intros kthr sthr A B Hk. apply eqv_peq. unfold divmod. cbn [fst snd]. unfold maxpy, pmulK.
   set (Q := div D kthr sthr (setdegree D A) (setdegree D B)).
-  rewrite (mul_eqv kthr Q (setdegree D B) Hk), (setdegree_eqv A), (setdegree_eqv B). ring.
+  rewrite sub_pub_eqv, (mul_eqv kthr Q (setdegree D B) Hk), (setdegree_eqv A), (setdegree_eqv B). ring.
 Qed.
 Lemma divmodin_identity : forall kthr sthr A B, 1 <= kthr ->
   peq A (padd (pmul B (fst (divmodin D kthr sthr A B))) (snd (divmodin D kthr sthr A B))).
@@ -119,7 +125,7 @@ Proof.
     + rewrite setdegree_eqv, setdegree_eqv, setdegree_eqv. exact HG.
     + assert (HR : eqv R1 (psub F (pmul G Q))).
       { assert (HF' : eqv F (padd (pmul G Q) R1)) by (constructor; exact Hd). rewrite HF'. ring. }
-      rewrite !div_s_eqv, !(mul_eqv kthr _ _ Hk), HR, HF, HG. ring.
+      rewrite !div_s_eqv, !sub_pub_eqv, !(mul_eqv kthr _ _ Hk), HR, HF, HG. ring.
 Qed.
 
 Lemma leadcoef_unused : True. Proof. exact I. Qed.
@@ -143,6 +149,39 @@ Proof.
   apply eqv_peq. apply H. unfold bez, assign. split.
   - rewrite div_s_eqv, const_eqv, setdegree_eqv. ring.
   - rewrite div_s_eqv, const_eqv, setdegree_eqv. ring.
+Qed.
+
+(* ---- the public add/sub: value = specification, result in normal form for operands in normal form *)
+Lemma add_pub_peq : forall P Q, peq (add_pub D P Q) (padd P Q).
+Proof.
+  intros P Q i. unfold add_pub. destruct P as [|a P]; destruct Q as [|b Q]; rewrite ?(coef_setdegree D OK); reflexivity.
+Qed.
+Lemma neg_eq_0 : forall a, dneg D a = O_ -> a = O_.
+Proof.
+  intros a H. assert (E : dadd D a (dneg D a) = O_) by ring. rewrite H in E. rewrite <- E. ring.
+Qed.
+Lemma last_map_neg : forall Q, last (neg D Q) O_ = dneg D (last Q (dneg D O_)).
+Proof.
+  induction Q as [|b Q IH]. cbn. ring.
+  destruct Q as [|c Q]. reflexivity. change (neg D (b :: c :: Q)) with (dneg D b :: neg D (c :: Q)).
+  change (last (dneg D b :: neg D (c :: Q)) O_) with (last (neg D (c :: Q)) O_). rewrite IH. reflexivity.
+Qed.
+Lemma neg_normal : forall Q, normal D Q -> normal D (neg D Q).
+Proof.
+  intros Q [H|H]. left. subst. reflexivity.
+  destruct Q as [|b Q]. left. reflexivity. right. rewrite last_map_neg. intros E. apply neg_eq_0 in E.
+  apply H. rewrite <- E. clear. revert b. induction Q as [|c Q IH]; intros b. reflexivity.
+  change (last (b :: c :: Q) O_) with (last (c :: Q) O_). change (last (b :: c :: Q) (dneg D O_)) with (last (c :: Q) (dneg D O_)). apply IH.
+Qed.
+Lemma add_pub_normal : forall P Q, normal D P -> normal D Q -> normal D (add_pub D P Q).
+Proof.
+  intros P Q HP HQ. unfold add_pub. destruct P as [|a P]. exact HQ. destruct Q as [|b Q]. exact HP.
+  apply setdegree_normal. assumption.
+Qed.
+Lemma sub_pub_normal : forall P Q, normal D P -> normal D Q -> normal D (sub_pub D P Q).
+Proof.
+  intros P Q HP HQ. unfold sub_pub. destruct P as [|a P]; destruct Q as [|b Q]; try exact HP.
+  apply neg_normal. exact HQ. apply setdegree_normal. assumption.
 Qed.
 
 (* ---- results are in normal form; the zero polynomial is recognised *)
